@@ -39,6 +39,8 @@ type Obs struct {
 type Race struct {
 	P1    int    `json:"p1"`
 	P2    int    `json:"p2"`
+	F1    int    `json:"f1"` // fault position among the row / lock operations of the first delivery, -1 none
+	F2    int    `json:"f2"`
 	Sched []bool `json:"sched"`
 }
 
@@ -225,7 +227,7 @@ func runRace(st *Store, sid *int, key int, r *Race) ([]Obs, string) {
 	for t := 0; t < 2; t++ {
 		*sid++
 		t := t
-		sess[t] = &Session{ID: *sid, Store: st, Fault: -1, FaultedKind: -1, Visible: raceVisible,
+		sess[t] = &Session{ID: *sid, Store: st, Fault: [2]int{r.F1, r.F2}[t], FaultedKind: -1, Visible: raceVisible,
 			Gate: func(s *Session, kind int, k *fkey) {
 				events <- event{tid: t, kind: kind, key: k}
 				<-grants[t]
